@@ -518,7 +518,9 @@ func (e *Env) c19Splitter(run *ssa.Function) {
 		evFin
 	)
 	isSendN := func(n *core.Node) bool { _, ok := isPortSend(n); return ok && n.Kind != core.KAfter }
-	isFin := func(n *core.Node) bool { return n.Callee != nil && n.Callee.Name() == "FinalizePaths" && n.Kind != core.KAfter }
+	isFin := func(n *core.Node) bool {
+		return n.Callee != nil && n.Callee.Name() == "FinalizePaths" && n.Kind != core.KAfter
+	}
 	isClose := func(n *core.Node) bool { return n.IsCallTo("(*os.File).Close") && !n.Deferred && n.Kind != core.KAfter }
 	must := g.Forward(func(n *core.Node) core.Transfer {
 		switch {
